@@ -42,7 +42,10 @@ P = {
        "enumerated forms, no repeats, least among yielded explanations, ordered yields, completeness up to supersets, user-supplied structure "
        "verbatim / unknown configuration rejected / default copies. The enumeration of canonical forms (candidates) is proved COMPLETE "
        "(C03_cn_candidates_complete: the active set of every feasible point is, up to order, an enumerated form), so optimality, completeness "
-       "and non-emptiness hold over ALL feasible points of the ILP (C03_cn_optimal_abs, C03_cn_complete_abs, C03_cn_nonempty_abs). " + TIE + "Structural LP tie (recorded CBC model vs gen) and behavioural tie "
+       "and non-emptiness hold over ALL feasible points of the ILP (C03_cn_optimal_abs, C03_cn_complete_abs, C03_cn_nonempty_abs). The loop "
+       "the code runs (model.solutions(gap) = Enum.solutions with the solver as an oracle under the C05 contract) is composed with these "
+       "(props/C03_reported.v: every yield feasible + canonical form + objective = documented objective of its form, first optimal over all "
+       "admissible forms, within gap, ordered/no containment/no repeats, complete up to containment). " + TIE + "Structural LP tie (recorded CBC model vs gen) and behavioural tie "
        "(estimate_cn / solve_cn_model results and scores vs CnSpec) on generated region-depth vectors over toy, generated and shipped genes.",
   note=TRUST + "CBC oracle (C05 contract). hyps_ok / names_ok are decidable hypotheses evaluated on every case. 'Score of the BEST explanation' is proved as 'least among yielded explanations' (named partial in props/C03.v).",
   tech="Coq proof over executable Gallina model (ILP generator + enumeration spec) + structural LP comparison + differential correspondence (vm_compute)"),
